@@ -363,17 +363,33 @@ func NewMultiaddrWithValue(ma multiaddr.Multiaddr) Multiaddr {
 
 // MarshalJSON returns a JSON-formatted multiaddress.
 func (maddr Multiaddr) MarshalJSON() ([]byte, error) {
+	if maddr.Multiaddr == nil {
+		return nil, errors.New("cannot marshal an empty multiaddress")
+	}
 	return maddr.Multiaddr.MarshalJSON()
 }
 
 // UnmarshalJSON parses a cluster Multiaddr from the JSON representation.
 func (maddr *Multiaddr) UnmarshalJSON(data []byte) error {
-	maddr.Multiaddr, _ = multiaddr.NewMultiaddr("/ip4/127.0.0.1") // null multiaddresses not allowed
-	return maddr.Multiaddr.UnmarshalJSON(data)
+	// Parse the string ourselves: the wrapped type dereferences the
+	// result of a failed parse.
+	var str string
+	if err := json.Unmarshal(data, &str); err != nil {
+		return err
+	}
+	m, err := multiaddr.NewMultiaddr(str)
+	if err != nil {
+		return err
+	}
+	maddr.Multiaddr = m
+	return nil
 }
 
 // MarshalBinary returs the bytes of the wrapped multiaddress.
 func (maddr Multiaddr) MarshalBinary() ([]byte, error) {
+	if maddr.Multiaddr == nil {
+		return nil, errors.New("cannot marshal an empty multiaddress")
+	}
 	return maddr.Multiaddr.MarshalBinary()
 }
 
